@@ -14,7 +14,10 @@ Implementation-level oracle (model-free), on real subprocess runs of bin/dippy-h
   * only the host-written level of the payload decides the answering host, the command and the directory (harness/hookplace.py):
     a tool_name / command / tool_input / cwd key anywhere the host does not write it (inside tool_input, tool_response, other
     members, near-miss spellings, ...) x what the top level holds x the three shapes + MCP x every forced mode (flags and
-    DIPPY_* variables) leaves the answer byte-for-byte what it is without that key.
+    DIPPY_* variables) leaves the answer byte-for-byte what it is without that key;
+  * an argv word / a DIPPY_* value / a variable name that is only a near-miss of a mode flag / a truthy value / a variable
+    (case, padding, truncation, plural, `=value`, doubled dashes, ...) selects nothing; a truthy value in any case does; the
+    position of a flag among the arguments is irrelevant.
 Correspondence: Model/Hook.v main == the real process on all those runs; detect_mode_from_input ==
 dippy.dippy._detect_mode_from_input over the JSON type grid; Hook.decode / Hook.conforms == the
 Python host readers on the real outputs."""
@@ -178,6 +181,8 @@ def run(tier, seed, replay=None):
             place_cases, _ = P.run_placement(sc, out, tier, "hosts", hm=hm, sample_limit=50, events=("pre",), host_names=hosts,
                                              fields=("tool_name", "command", "tool_input", "cwd"), forced=P.FORCED + P.FORCED_ENV)
             allc = allc + place_cases
+            # near-miss spellings of the mode flags, of the truthy values and of the variable names
+            P.run_mode_spellings(sc, out, tier)
 
         def bad(what, sig, c, **more):
             out.violations.append({"kind": "hosts", "what": what, **H.describe(c, sc), **more, "signature_text": f"{sig} | {c.label}"})
